@@ -2,10 +2,12 @@ module verifharness
 
 go 1.18
 
-require github.com/ccbrown/api-fu v0.0.0
+require (
+	github.com/ccbrown/api-fu v0.0.0
+	github.com/gorilla/websocket v1.4.2
+)
 
 require (
-	github.com/gorilla/websocket v1.4.2 // indirect
 	github.com/hashicorp/errwrap v1.0.0 // indirect
 	github.com/hashicorp/go-multierror v1.1.1 // indirect
 	github.com/json-iterator/go v1.1.12 // indirect
